@@ -86,7 +86,7 @@ inline ccl::semantic::ConceptRecord toRecord(const Rec& r, EntityUID resolved = 
 }
 
 struct Op {
-  enum Kind { EMPLACE, ERASE, SET_EXPR, SET_ALIAS, SET_TERM, SET_TEXT, SET_CONV, MOVE, INSERT_REC, INSERT_RECS, INSERT_FROM, RESET_ALIASES, TRACK, UNTRACK, MERGE, DEDUP, ERASE_MISSING, SET_FORM, N } kind = EMPLACE;
+  enum Kind { EMPLACE, ERASE, SET_EXPR, SET_ALIAS, SET_TERM, SET_TEXT, SET_CONV, MOVE, INSERT_REC, INSERT_RECS, INSERT_FROM, RESET_ALIASES, TRACK, UNTRACK, MERGE, DEDUP, ERASE_MISSING, SET_FORM, DUPLICATE, N } kind = EMPLACE;
   int target = 0, where = 0;     // list indices (modulo current length)
   CstType cst = CstType::term;
   std::string text;              // definition / alias / text
@@ -95,7 +95,7 @@ struct Op {
   std::vector<int> picks;        // indices into the other schema
 };
 inline const char* opName(Op::Kind k) {
-  static const char* n[] = {"Emplace", "Erase", "SetExpression", "SetAlias", "SetTerm", "SetText", "SetConvention", "MoveBefore", "InsertRecord", "InsertRecords", "InsertFromSchema", "ResetAliases", "Track", "StopTracking", "MergeWith", "DeleteDuplicates", "EraseMissing", "SetTermForm"};
+  static const char* n[] = {"Emplace", "Erase", "SetExpression", "SetAlias", "SetTerm", "SetText", "SetConvention", "MoveBefore", "InsertRecord", "InsertRecords", "InsertFromSchema", "ResetAliases", "Track", "StopTracking", "MergeWith", "DeleteDuplicates", "EraseMissing", "SetTermForm", "InsertDuplicateOf"};
   return n[k];
 }
 
@@ -110,7 +110,7 @@ inline std::vector<Op> genHistory(pbt::Ctx& c, const GenOpts& o) {
   for (int i = 0; i < seedCst; ++i) { Op op; op.kind = Op::EMPLACE; op.cst = seedKinds[i]; op.text = genDefinition(c, op.cst); ops.push_back(op); }
   for (int i = 0; i < n; ++i) {
     Op op;
-    const int k = c.ipick(0, 99);
+    const int k = c.ipick(0, 99 + (o.tracking ? 8 : 0) + (o.merges ? 8 : 0));
     op.target = c.ipick(0, 11); op.where = c.ipick(0, 12);
     if (k < 22) { op.kind = Op::EMPLACE; op.cst = genKind(c); op.text = genDefinition(c, op.cst); }
     else if (k < 30) op.kind = Op::ERASE;
@@ -123,11 +123,12 @@ inline std::vector<Op> genHistory(pbt::Ctx& c, const GenOpts& o) {
     else if (k < 86) { op.kind = Op::INSERT_REC; op.recs.push_back(genRec(c)); }
     else if (k < 90) { op.kind = Op::INSERT_RECS; const int m = c.ipick(1, 3); for (int j = 0; j < m; ++j) op.recs.push_back(genRec(c)); }
     else if (k < 93) { op.kind = Op::INSERT_FROM; const int m = c.ipick(1, 3); for (int j = 0; j < m; ++j) op.picks.push_back(c.ipick(0, 5)); const int r = c.ipick(2, 4); for (int j = 0; j < r; ++j) op.recs.push_back(genRec(c)); op.flag = c.coin(); }
-    else if (k < 95) op.kind = Op::RESET_ALIASES;
-    else if (k < 96) op.kind = Op::ERASE_MISSING;
-    else if (o.tracking && k < 98) { op.kind = c.chance(3, 4) ? Op::TRACK : Op::UNTRACK; op.flag = c.coin(); }
-    else if (o.merges) { if (c.coin()) { op.kind = Op::MERGE; const int r = c.ipick(1, 3); for (int j = 0; j < r; ++j) op.recs.push_back(genRec(c)); } else op.kind = Op::DEDUP; }
-    else { op.kind = Op::SET_EXPR; op.cst = CstType::term; op.text = genDefinition(c, op.cst); }
+    else if (k < 94) op.kind = Op::RESET_ALIASES;
+    else if (k < 95) op.kind = Op::ERASE_MISSING;
+    else if (k < 96) op.kind = Op::DUPLICATE;
+    else if (k < 100) { op.kind = Op::SET_EXPR; op.cst = CstType::term; op.text = genDefinition(c, op.cst); }
+    else if (o.tracking && k < 108) { op.kind = k < 106 ? Op::TRACK : Op::UNTRACK; op.flag = c.coin(); }
+    else { const int w = (k - (o.tracking ? 108 : 100)); if (w < 2) { op.kind = Op::MERGE; const int r = c.ipick(1, 3); for (int j = 0; j < r; ++j) op.recs.push_back(genRec(c)); } else if (w < 5) op.kind = Op::DUPLICATE; else op.kind = Op::DEDUP; }
     ops.push_back(op);
   }
   return ops;
@@ -138,7 +139,7 @@ inline std::string showOp(const Op& op) {
   std::string s = opName(op.kind);
   switch (op.kind) {
     case Op::EMPLACE: s += std::string("(") + kindName(op.cst) + ", '" + op.text + "')"; break;
-    case Op::ERASE: case Op::TRACK: case Op::UNTRACK: s += "(#" + std::to_string(op.target) + (op.kind == Op::TRACK ? (op.flag ? ", editable" : ", locked") : "") + ")"; break;
+    case Op::DUPLICATE: case Op::ERASE: case Op::TRACK: case Op::UNTRACK: s += "(#" + std::to_string(op.target) + (op.kind == Op::TRACK ? (op.flag ? ", editable" : ", locked") : "") + ")"; break;
     case Op::SET_FORM: case Op::SET_EXPR: case Op::SET_TERM: case Op::SET_TEXT: case Op::SET_CONV: s += "(#" + std::to_string(op.target) + ", '" + op.text + "')"; break;
     case Op::SET_ALIAS: s += "(#" + std::to_string(op.target) + ", '" + op.text + "'" + (op.flag ? ", substitute" : ", keep-mentions") + ")"; break;
     case Op::MOVE: s += "(#" + std::to_string(op.target) + " before #" + std::to_string(op.where) + ")"; break;
@@ -191,7 +192,7 @@ struct Executor {
     Applied r;
     const auto l = list();
     auto pickUid = [&](int idx) -> EntityUID { return l[static_cast<size_t>(idx) % l.size()]; };
-    const bool needsTarget = op.kind == Op::ERASE || op.kind == Op::SET_EXPR || op.kind == Op::SET_ALIAS || op.kind == Op::SET_TERM || op.kind == Op::SET_FORM || op.kind == Op::SET_TEXT || op.kind == Op::SET_CONV || op.kind == Op::MOVE || op.kind == Op::TRACK || op.kind == Op::UNTRACK;
+    const bool needsTarget = op.kind == Op::ERASE || op.kind == Op::SET_EXPR || op.kind == Op::SET_ALIAS || op.kind == Op::SET_TERM || op.kind == Op::SET_FORM || op.kind == Op::SET_TEXT || op.kind == Op::SET_CONV || op.kind == Op::MOVE || op.kind == Op::TRACK || op.kind == Op::UNTRACK || op.kind == Op::DUPLICATE;
     if (needsTarget && l.empty()) { r.skipped = true; return r; }
     switch (op.kind) {
       case Op::EMPLACE: r.uid = form.Emplace(op.cst, op.text); r.created = {r.uid}; break;
@@ -245,6 +246,11 @@ struct Executor {
         if (op.flag) { ccl::VectorOfEntities in; std::set<EntityUID> seen; for (int p : op.picks) { auto u = ol[static_cast<size_t>(p) % ol.size()]; if (seen.insert(u).second) in.push_back(u); } r.created = form.InsertCopy(in, other.Core()); }
         else { r.uid = form.InsertCopy(ol[static_cast<size_t>(op.picks[0]) % ol.size()], other.Core()); r.created = {r.uid}; }
         break;
+      }
+      case Op::DUPLICATE: {  // an exact copy (same kind, definition, convention, texts) under a fresh identifier: food for DeleteDuplicates
+        r.uid = pickUid(op.target);
+        auto rec = form.Core().AsRecord(r.uid); rec.uid = 0x40000000u + static_cast<EntityUID>(l.size());
+        r.uid = form.InsertCopy(rec); r.created = {r.uid}; break;
       }
       case Op::RESET_ALIASES: form.ResetAliases(); break;
       case Op::TRACK: { r.uid = pickUid(op.target); ccl::semantic::TrackingFlags f; f.allowEdit = op.flag; form.Mods().Track(r.uid, f); break; }
